@@ -1,7 +1,7 @@
 (* C05 - A run covers exactly the selected targets, once each (scheduler part: one result entry per planned
    task, at most one start, exactly one iff defined, executable and reached before any failure). *)
 From Coq Require Import List Arith Bool.
-From MR Require Import Model.Sched Proofs.SchedProof Proofs.SchedFinal.
+From MR Require Import Model.Sched Proofs.SchedProof Proofs.SchedFinal Proofs.SchedLive.
 Import ListNotations.
 
 Definition planned (P : plan) (t : task) : Prop := defn_at P t <> None.
@@ -24,4 +24,14 @@ Definition C05_statement (run : plan -> bool -> (task -> nat) -> list choice -> 
 Theorem C05_holds : C05_statement run.
 Proof. exact C05_all. Qed.
 
+(* liveness (supporting the clause about finished runs): every schedule prefix can be completed - let the tracked
+   children exit, reap them, step the scheduler - so [ph s = Finished] is reachable from every reachable state, for
+   every plan, and the scheduler never deadlocks *)
+Definition C05_completes_statement (run : plan -> bool -> (task -> nat) -> list choice -> st) : Prop :=
+  forall P fou code cs, exists cs', ph (run P fou code (cs ++ cs')) = Finished.
+
+Theorem C05_completes_holds : C05_completes_statement run.
+Proof. exact sched_completes. Qed.
+
 Print Assumptions C05_holds.
+Print Assumptions C05_completes_holds.
